@@ -16,6 +16,10 @@ POOLS = {
     "str": ["", "a", "b" * 50],
     "bool": [True, False],
     "date": [np.datetime64("2020-01-02"), np.datetime64("NaT", "D")],
+    "fix": ["", "a", "bc"],
+    "imin": [0, 1, -2 ** 63],          # the smallest int64 (negation wraps)
+    "u8": [0, 1, 2],                   # unsigned (negation wraps)
+    "td": [np.timedelta64(1, "D"), np.timedelta64("NaT", "D")],
 }
 
 
@@ -25,6 +29,14 @@ def columns(kind, nrow):
 
 
 def mkcol(kind, values):
+    if kind == "fix":          # old-style fixed-width strings (what np.array gives for a list of str)
+        return Vector(np.array(list(values), "<U3"))
+    if kind == "td":
+        return Vector(np.array(list(values), "timedelta64[D]"))
+    if kind == "imin":
+        return Vector(values, int)
+    if kind == "u8":
+        return Vector(values, np.uint8)
     dt = {"int": int, "float": float, "str": str, "bool": bool, "date": "datetime64[D]", "obj": object}[kind]
     return Vector(values, dt)
 
@@ -48,6 +60,8 @@ def enc(values):
             out.append("-inf" if v < 0 else "inf")
         elif isinstance(v, np.datetime64):
             out.append("D:" + str(v))
+        elif isinstance(v, np.timedelta64):
+            out.append("TD:" + ("NaT" if np.isnat(v) else str(int(v / np.timedelta64(1, "D")))))
         else:
             out.append(v)
     return out
@@ -62,6 +76,8 @@ def dec(values):
             out.append(float(v))
         elif isinstance(v, str) and v.startswith("D:"):
             out.append(np.datetime64(v[2:], "D"))
+        elif isinstance(v, str) and v.startswith("TD:"):
+            out.append(np.timedelta64("NaT", "D") if v[3:] == "NaT" else np.timedelta64(int(v[3:]), "D"))
         else:
             out.append(v)
     return out
@@ -546,6 +562,17 @@ def mk_join_frames(kind, ka, kb, renamed=False):
     return a, b
 
 
+def add_payload(b):
+    """right-hand payload columns of the other dtype kinds (their missing value needs bool -> object, int -> float, ...)"""
+    n = b.nrow
+    b = b.copy()
+    b["pb"] = Vector([i % 2 == 0 for i in range(n)], bool)
+    b["ps"] = Vector(["s%d" % i for i in range(n)], str)
+    b["pd"] = Vector([np.datetime64("2020-01-01") + i for i in range(n)], "datetime64[D]")
+    b["pf"] = Vector([i + 0.5 for i in range(n)], float)
+    return b
+
+
 def first_match(a, b, i, rk="k"):
     x = a.k[i]
     for j in range(b.nrow):
@@ -571,6 +598,14 @@ def join_driver(name, kindj, renamed=False):
                     ok = got.colnames == ["k", "x", "y"] and list(got.x) == list(a.x) and col_eq(got.k, a.k) and got.nrow == a.nrow
                     for i in range(a.nrow):
                         ok = ok and ((m[i] is None and is_missing(got.y[i])) or (m[i] is not None and got.y[i] == b.y[m[i]]))
+                    # payload columns of every dtype kind: partner's value, or a missing value the column can hold
+                    b2 = add_payload(b)
+                    got2 = a.left_join(b2, by)
+                    for c in ("pb", "ps", "pd", "pf"):
+                        na2 = list(got2[c].is_na())
+                        for i in range(a.nrow):
+                            ok = ok and ((m[i] is None and bool(na2[i]) and is_missing(got2[c][i]))
+                                         or (m[i] is not None and not bool(na2[i]) and got2[c][i] == b2[c][m[i]]))
                 elif kindj == "inner":
                     got = a.inner_join(b, by)
                     keep = [i for i in range(a.nrow) if m[i] is not None]
@@ -611,7 +646,7 @@ join_driver(P + "full_join[bounded only]", "full")
 
 
 # ---- C03: sort ---------------------------------------------------------------------------------------
-SORT_POOLS = {"int": [0, 1], "float": [0.5, NAN, -0.5], "str": ["", "a", "b" * 50, "\U0001F600"], "bool": [True, False],
+SORT_POOLS = {"int": [0, 1, -2 ** 63], "float": [0.5, NAN, -0.5], "str": ["", "a", "b" * 50, "\U0001F600"], "bool": [True, False],
               "date": POOLS["date"] + [np.datetime64("2021-05-05")], "obj": [None, 1, 2], "fix": ["", "a", "b"]}
 
 
